@@ -363,6 +363,7 @@ def main():
     for sig, f in sorted(by_sig.items()):
         path = write_failure(prop, f)
         print("failure signature: %s\n detail: %s" % (sig, jdump(f["detail"])[:1500]))
+        print(" replay-case: %s" % jdump({"property": prop, "case": f["case"]})[:20000])     # so that a log alone reproduces it
         violations.append((sig, path))
 
     for s, n in sorted(known_hits.items()):
